@@ -264,7 +264,7 @@ def ledger(present: bool, valid: bool, hi: int, same: bool, delta: int, var: int
         body = sg_msg[len(sh):]
         wanted += ["Platform: led", "UD value: " + body[3:35].hex(), "Best block: " + body[67:99].hex(),
                    "Last transaction signed: " + body[99:107].hex(), "Timestamp: %d" % int.from_bytes(body[107:115], "big")]
-    return all(w in printed for w in wanted) and len(roots) == 1
+    return all(w in printed for w in wanted) and len(roots) >= 1
 
 
 @obligation(tier="quick", parts=8, timeout=200,
